@@ -251,12 +251,15 @@ def member_ok(E, d):
 
 @spec
 def comps_ok(comps, G, CI, CP):
-    """the component lists partition the vertices (ghost inverse maps: vertex x is entry CP[x] of component CI[x]; no vertex
-    occurs twice), every component is non-empty and no edge joins two different components"""
-    return (forall(lambda x: implies(x in G, 0 <= CI[x] and CI[x] < len(comps) and 0 <= CP[x] and CP[x] < len(comps[CI[x]])
-                                     and comps[CI[x]][CP[x]] == x))
+    """the component lists partition the vertices (ghost inverse maps: vertex x is entry CP[x] of component CI[x]; the entries
+    of component c are vertices x with CI[x] == c, none of them twice), every component is non-empty and no edge joins two
+    different components"""
+    return (forall(lambda x: implies(x in G, 0 <= CI[x] and CI[x] < len(comps)), pats=["CI[x]"])
+            and forall(lambda x: implies(x in G, 0 <= CP[x] and CP[x] < len(comps[CI[x]]) and comps[CI[x]][CP[x]] == x), pats=["CP[x]"])
             and forall(lambda c, p: implies(0 <= c and c < len(comps) and 0 <= p and p < len(comps[c]),
-                                            comps[c][p] in G and CI[comps[c][p]] == c and CP[comps[c][p]] == p))
+                                            comps[c][p] in G and CI[comps[c][p]] == c), pats=["comps[c][p]"])
+            and forall(lambda c, p, r: implies(0 <= c and c < len(comps) and 0 <= p and p < r and r < len(comps[c]),
+                                               comps[c][p] != comps[c][r]))
             and forall(lambda c: implies(0 <= c and c < len(comps), len(comps[c]) >= 1))
             and forall(lambda x, y: implies(x in G and y in G[x], CI[y] == CI[x])))
 
@@ -310,11 +313,15 @@ DFS = [
     "forall(lambda x: (x in visited) == (x in GR))",
     "len(components) >= 0",
     # ghost inverse maps: a visited vertex x is entry CP[x] of component CI[x] ...
-    "forall(lambda x: implies(x in GR and visited[x], 0 <= CI[x] and CI[x] < len(components) and 0 <= CP[x] "
-    "and CP[x] < len(components[CI[x]]) and components[CI[x]][CP[x]] == x))",
-    # ... and every entry of a component is a visited vertex recorded at exactly that place (no vertex twice)
+    # (explicit triggers: with the default ones these clauses and the next would instantiate each other for ever)
+    "forall(lambda x: implies(x in GR and visited[x], 0 <= CI[x] and CI[x] < len(components)), pats=['CI[x]'])",
+    "forall(lambda x: implies(x in GR and visited[x], 0 <= CP[x] and CP[x] < len(components[CI[x]]) "
+    "and components[CI[x]][CP[x]] == x), pats=['CP[x]'])",
+    # ... every entry of component c is a visited vertex x with CI[x] == c, and no vertex occurs twice in a component
     "forall(lambda c, p: implies(0 <= c and c < len(components) and 0 <= p and p < len(components[c]), components[c][p] in GR "
-    "and visited[components[c][p]] and CI[components[c][p]] == c and CP[components[c][p]] == p))",
+    "and visited[components[c][p]] and CI[components[c][p]] == c), pats=['components[c][p]'])",
+    "forall(lambda c, p, r: implies(0 <= c and c < len(components) and 0 <= p and p < r and r < len(components[c]), "
+    "components[c][p] != components[c][r]))",
     "forall(lambda c: implies(0 <= c and c < len(components), len(components[c]) >= 1))",
     "forall(lambda q: implies(0 <= q and q < v1, visited[vertices[q]]))",
 ]
@@ -458,7 +465,11 @@ class all_dot_brackets:
                 "forall x | assert implies(x in GR and CI[x] == c4, 0 <= CP[x] and CP[x] < len(component) and component[CP[x]] == x)"
                 " | assert implies(x in GR and CI[x] == c4, 0 <= PP[x] and PP[x] < len(permutation) and perm_src(q5, PP[x]) == CP[x])"
                 " | assert implies(x in GR and CI[x] == c4, 0 <= PP[x] and PP[x] < len(permutation) and permutation[PP[x]] == x)",
-                "forall b | assert implies(0 <= b and b < len(permutation), permutation[b] in GR and CI[permutation[b]] == c4 and PP[permutation[b]] == b)"]},
+                "forall k | assert implies(0 <= k and k < len(component), component[k] in GR and CI[component[k]] == c4 "
+                "and component[CP[component[k]]] == component[k]) | assert implies(0 <= k and k < len(component), CP[component[k]] == k)",
+                "forall b | assert implies(0 <= b and b < len(permutation), permutation[b] == component[perm_src(q5, b)] and "
+                "CP[permutation[b]] == perm_src(q5, b)) | assert implies(0 <= b and b < len(permutation), permutation[b] in GR "
+                "and CI[permutation[b]] == c4 and PP[permutation[b]] == b)"]},
         {"when": "after", "at": "orders = {region: 0 for region in component}", "label": "M0",
          "do": ["let M = 1", "let WT = fill(0, 0)", "let WW = snoc(empty('list[list[int]]'), fill(0, 0))"]},
         {"when": "after", "at": "available = [", "label": "WT0", "do": ["let WT = fill(len(component), 0 - 1)"]},
